@@ -71,7 +71,11 @@ class MaskedStub:
     every entry of the row is masked (then index 0)"""
 
     def __init__(self, values, mask):
-        self.values, self.mask = np.asarray(values, dtype=object), np.asarray(mask, dtype=object)
+        self.values = np.asarray(values, dtype=object)
+        self.mask = np.zeros(self.values.shape, dtype=object) if mask is None else np.asarray(mask, dtype=object)
+
+    def argmax(self, axis=None, **k):
+        return shim_argmax(self, axis=axis)
 
 
 def shim_argmax(x, axis=None, **k):
@@ -419,13 +423,106 @@ class PPOEvalAction(Case):
         return res
 
 
+class MAAction(Case):
+    """MADDPG / MATD3 get_action: exploration clamp of continuous actions, masked arg-max of discrete ones, env-defined actions"""
+    stubs = ("actors = stubs returning symbolic outputs", "action_noise(idx) = arbitrary reals", "numpy.ma via the stand-in with numpy's documented semantics")
+    assumptions = ("evaluation mode: the (real) deterministic actor's output activation and rescaling deliver values inside the Box (stub outputs are assumed inside)",
+                   "discrete: one-hot style outputs in [0,1]; masks 0/1 with at least one legal action")
+
+    LOW, HIGH = [-1.0, 0.5], [1.0, 0.75]
+
+    def __init__(self, algo, discrete, training, masked=False, env_defined=False, B=2, nA=None):
+        from agilerl.algorithms.maddpg import MADDPG
+        from agilerl.algorithms.matd3 import MATD3
+        self.algo, self.discrete, self.training, self.masked, self.env_defined, self.B = algo, discrete, training, masked, env_defined, B
+        self.cls = {"MADDPG": MADDPG, "MATD3": MATD3}[algo]
+        self.nA = nA or (3 if discrete else 2)
+        self.functions = (self.cls.get_action,)
+        self.site = f"{algo}.get_action"
+        self.name = f"{algo.lower()}-action-{'discrete' + str(self.nA) if discrete else 'box'}-{'train' if training else 'eval'}" + ("-mask" if masked else "") + ("-envdefined" if env_defined else "") + f"-B{B}"
+        self.bounds = {"agents": 2, "batch": B, "discrete": discrete, "training": training, "mask": masked, "env_defined_actions": env_defined,
+                       "bounds": None if discrete else "per-dimension: low [-1, 0.5], high [1, 0.75]", "symbolic": "actor outputs, exploration noise, masks, env-defined actions"}
+        self._agent = None
+
+    def agent(self):
+        if self._agent is None:
+            try:
+                ids = ["ag_0", "ag_1"]
+                asp = spaces.Discrete(self.nA) if self.discrete else spaces.Box(np.array(self.LOW, dtype=np.float32), np.array(self.HIGH, dtype=np.float32))
+                self._agent = self.cls([spaces.Box(-1, 1, (1,))] * 2, [asp] * 2, agent_ids=ids, net_config=TINY)
+            except Exception as ex:   # noqa: BLE001
+                raise HarnessError(f"could not build {self.algo}: {type(ex).__name__}: {ex}")
+        return self._agent
+
+    def run(self, v):
+        import importlib
+        mod = importlib.import_module(self.cls.__module__)
+        B = self.B
+        agent = self.agent()
+        ids = list(agent.agent_ids)
+        nA = self.nA
+        OUT = {a: v.tensor(f"pi_{a}", (B, nA)) for a in ids}
+        for a in ids:
+            for b in range(B):
+                for k in range(nA):
+                    x = val(OUT[a], b, k)
+                    if self.discrete:
+                        v.assume(conj(x >= 0, x <= 1))
+                    elif not self.training:
+                        v.assume(conj(x >= self.LOW[k], x <= self.HIGH[k]))
+        obs = {a: v.array(f"o_{a}", (B, 1)) for a in ids}
+        actors = [OutNet(OUT[a]) for a in ids]
+        noise = lambda idx: v.tensor(f"noise{idx}", (B, nA))
+        infos = None
+        masks, eda = {}, {}
+        if self.masked or self.env_defined:
+            infos = {a: {} for a in ids}
+        if self.masked:
+            for a in ids:
+                m = v.array(f"mask_{a}", (B, nA), "flag")
+                for b in range(B):
+                    v.assume(disj(*[eq(m[b, k], 1) for k in range(nA)]))
+                masks[a] = m
+                infos[a]["action_mask"] = m
+        patches = [(agent, "actors", actors), (agent, "action_noise", noise)]
+        if v.mode != "real":
+            patches += [(mod, "np", np_shim(v)), (au, "torch", ShimTorch())]
+        with patched(*patches):
+            cont, disc = agent.get_action(obs, training=self.training, infos=infos)
+        res = []
+        for a in ids:
+            if self.discrete:
+                act = np.asarray(disc[a])
+                res.append(Ob(f"{a}/action-has-the-batch-shape", tuple(act.shape) in ((B,), (B, 1))))     # MATD3 returns a column
+                if tuple(act.shape) not in ((B,), (B, 1)):
+                    continue
+                act = act.reshape(-1)
+                for b in range(B):
+                    x = act[b]
+                    res.append(Ob(f"{a}/row{b}/action-is-a-valid-index", conj(x >= 0, x < nA)))
+                    if self.masked:
+                        res.append(Ob(f"{a}/row{b}/masked-action-never-chosen", disj(*[conj(eq(x, k), eq(masks[a][b, k], 1)) for k in range(nA)]), site=self.site + "/mask"))
+            else:
+                act = np.asarray(cont[a])
+                res.append(Ob(f"{a}/action-has-the-batch-shape", tuple(act.shape) == (B, nA)))
+                if tuple(act.shape) != (B, nA):
+                    continue
+                for b in range(B):
+                    for k in range(nA):
+                        res.append(Ob(f"{a}/row{b}/dim{k}/inside-the-bounds", conj(ge(act[b, k], self.LOW[k]), le(act[b, k], self.HIGH[k])),
+                                      site=self.site + "/clamp-uses-first-dimension-bounds"))
+        return res
+
+
 def cases(tier):
     cs = [DQNAction(2, 3, True, False), DQNAction(2, 3, True, True), DQNAction(1, 2, False, False), DQNAction(2, 2, False, True),
           MaskedArgmaxAction("CQN", 2, 3, True), MaskedArgmaxAction("CQN", 2, 3, True, greedy=False), MaskedArgmaxAction("CQN", 2, 2, False, greedy=False),
           MaskedArgmaxAction("RainbowDQN", 2, 3, True), MaskedArgmaxAction("RainbowDQN", 2, 3, False), MaskedArgmaxAction("RainbowDQN", 1, 2, True, greedy=False),
           ClipAction("DDPG", 2, True), ClipAction("DDPG", 1, False), ClipAction("TD3", 2, True), ClipAction("TD3", 2, False),
           RescaleAction("Tanh"), RescaleAction("Sigmoid"), RescaleAction("Softsign", B=1, D=3),
-          PPOEvalAction(False, False), PPOEvalAction(False, True), PPOEvalAction(True, False), PPOEvalAction(True, True)]
+          PPOEvalAction(False, False), PPOEvalAction(False, True), PPOEvalAction(True, False), PPOEvalAction(True, True),
+          MAAction("MADDPG", False, True), MAAction("MADDPG", False, False), MAAction("MADDPG", True, True, masked=True, B=1, nA=2),
+          MAAction("MADDPG", True, False, masked=True, B=1), MAAction("MATD3", False, True, B=1), MAAction("MATD3", True, False, masked=True, B=1)]
     if tier == "thorough":
         cs += [DQNAction(2, 4, True, False), DQNAction(3, 3, True, True), MaskedArgmaxAction("CQN", 3, 4, True), MaskedArgmaxAction("RainbowDQN", 3, 4, True),
                ClipAction("DDPG", 3, True), ClipAction("TD3", 3, True)]
